@@ -30,6 +30,12 @@ theorem independent_calls_commute {L S : Type} (sch : List Bool) (a b : List (St
     `visitedSymlinks`) -/
 theorem facts_no_shared_writes : Generated.sharedWrites = [] := by decide
 
+/-- … and on every run: no function of package in_toto calls a function that changes state of the
+    whole PROCESS (working directory, environment, umask, default logger, global random source,
+    signal handling, scheduler / GC settings, exit) — the shared component that is not a Go variable.
+    (A change that makes RunCommand `os.Chdir` into the run directory breaks this obligation.) -/
+theorem facts_no_process_global_calls : Generated.processGlobalCalls = [] := by decide
+
 /-- a shared write DOES break independence (non-vacuity of the hypothesis): two calls that both
     "reset, then add their own entry to, a shared set" — the discipline of the old visitedSymlinks —
     under the schedule A-reset, A-add, B-reset lose A's entry, which A alone would keep -/
